@@ -10,6 +10,16 @@
 From Coq Require Import NArith List Bool Lia Arith.
 Import ListNotations.
 Require Import SR.Base.Res SR.Model.RefFormat SR.Spec.RefFormat SR.Proofs.RefFormatP.
+(* The definitions of this development that occur in theorem statements (Props/) live in Spec/SentenceValueWitness.v (audit item G1).
+   The abbreviations keep the qualified names SentenceValueP.name of other files resolving; they are parsing-only aliases. *)
+Require Export SR.Spec.SentenceValueWitness.
+Notation w5_line1 := SR.Spec.SentenceValueWitness.w5_line1 (only parsing).
+Notation w5_line2 := SR.Spec.SentenceValueWitness.w5_line2 (only parsing).
+Notation w5_line3 := SR.Spec.SentenceValueWitness.w5_line3 (only parsing).
+Notation witness5 := SR.Spec.SentenceValueWitness.witness5 (only parsing).
+Notation w5_written := SR.Spec.SentenceValueWitness.w5_written (only parsing).
+Notation w5_got := SR.Spec.SentenceValueWitness.w5_got (only parsing).
+Notation entry_texts := SR.Spec.SentenceValueWitness.entry_texts (only parsing).
 Open Scope N_scope.
 
 Lemma sentence_cut : forall (d1 d2 c : N) (a : line) (w : N) (b : line),
@@ -25,32 +35,6 @@ Proof.
   change (c :: a ++ 46 :: w :: b) with ((c :: a) ++ 46 :: w :: b).
   rewrite (find_term_body (c :: a) w b Ha Hw). eexists. reflexivity.
 Qed.
-
-(* ------------------------------------------------------------------ the witness
-          01 R.
-            05 FLD-A PIC X(5) VALUE 'A. B'.
-            05 FLD-B PIC X.                                                         *)
-Definition w5_line1 : line := [32; 32; 32; 32; 32; 32; 32; 48; 49; 32; 82; 46; 10].
-Definition w5_line2 : line :=
-  [32; 32; 32; 32; 32; 32; 32; 32; 32; 48; 53; 32; 70; 76; 68; 45; 65; 32; 80; 73; 67; 32; 88; 40; 53; 41; 32;
-   86; 65; 76; 85; 69; 32; 39; 65; 46; 32; 66; 39; 46; 10].
-Definition w5_line3 : line :=
-  [32; 32; 32; 32; 32; 32; 32; 32; 32; 48; 53; 32; 70; 76; 68; 45; 66; 32; 80; 73; 67; 32; 88; 46; 10].
-Definition witness5 : list line := [w5_line1; w5_line2; w5_line3].
-
-(* the clause text as written: FLD-A PIC X(5) VALUE 'A. B' *)
-Definition w5_written : line :=
-  [70; 76; 68; 45; 65; 32; 80; 73; 67; 32; 88; 40; 53; 41; 32; 86; 65; 76; 85; 69; 32; 39; 65; 46; 32; 66; 39].
-(* what comes back: FLD-A PIC X(5) VALUE 'A *)
-Definition w5_got : line :=
-  [70; 76; 68; 45; 65; 32; 80; 73; 67; 32; 88; 40; 53; 41; 32; 86; 65; 76; 85; 69; 32; 39; 65].
-
-(* (level, compact_source) of every sentence the text layer returns *)
-Definition entry_texts (src : list line) : res (list (line * line)) :=
-  match reference_format src [] with
-  | Ok out => Ok (map (fun s => (fst s, compact (snd s))) (dde_sentences out))
-  | Err e => Err e
-  end.
 
 Lemma refuted_5 :
   entry_texts witness5 = Ok [([48; 49], [82]); ([48; 53], w5_got); ([48; 53], [70; 76; 68; 45; 66; 32; 80; 73; 67; 32; 88])]
